@@ -45,7 +45,10 @@ def _cases(draw):
         sched = draw(st.lists(st.integers(0, 11), max_size=120))
     delays = draw(st.lists(st.integers(0, 6), min_size=1, max_size=4))
     return {"n": n, "par": par, "max_tasks": mt, "fail": fails, "unpicklable": unp, "tolerate": tol, "use_run": use_run,
-            "schedule": sched, "delays": delays, "fail_kind": draw(st.integers(0, 4))}
+            "schedule": sched, "delays": delays, "fail_kind": draw(st.integers(0, 7)),
+            "callback": ({"in_thread": draw(st.booleans()),
+                          "raise_for": sorted(draw(st.sets(st.integers(0, max(0, n - 1)), max_size=2)))}
+                         if (n and tol and not use_run and draw(st.integers(0, 3)) == 0) else None)}
 
 
 def strategy(tier):
@@ -58,7 +61,10 @@ def _judge(case, out, labels):
     # in the single-process path nothing is pickled and the value is delivered as is
     single = min(case["par"], n) <= 1
     unp = set(case.get("unpicklable", ())) if not single else set()
-    fails = set(case["fail"]) | unp
+    from vf.model.poolsim import is_transient
+    fk = case.get("fail_kind", 0)
+    fails = {i for i in case["fail"] if not is_transient(fk + i)} | unp
+    cbfail = set((case.get("callback") or {}).get("raise_for", ()))
     det = {"outcome": {k: out[k] for k in ("delivered", "raised", "bound", "steps", "run_result", "crashes")}}
     if out["crashes"]:
         raise Violation("worker-crash", f"worker body crashed: {out['crashes'][:2]}", det)
@@ -85,7 +91,11 @@ def _judge(case, out, labels):
     if len(ids) != len(set(ids)):
         raise Violation("duplicate-result", f"an id was delivered twice: {ids}", det)
     for (i, res, exc) in out["delivered"]:
-        if i in unp:
+        if i in cbfail:
+            # the callback failed on this outcome: the id is still reported, as a failure (the callback's error or the task's own)
+            if exc is None:
+                raise Violation("wrong-payload", f"id {i}: a callback raised on its outcome, a failure outcome is expected, got result={res!r}", det)
+        elif i in unp:
             if exc is None:
                 raise Violation("wrong-payload", f"id {i}: its result cannot be pickled, a failure outcome is expected, got result={res!r}", det)
         elif single and i in set(case.get("unpicklable", ())):
@@ -118,12 +128,19 @@ def check(case):
         return _check_real(case)
     out = run_case(case["n"], case["par"], case["max_tasks"], case["fail"], case["tolerate"],
                    case["schedule"], case["delays"], use_run=case["use_run"], unpicklable_ids=case.get("unpicklable", ()),
-                   fail_kind=case.get("fail_kind", 0))
+                   fail_kind=case.get("fail_kind", 0), callback=case.get("callback"))
+    if case.get("callback"):
+        labels_cb = ["callback-registered"] + (["callback-raises"] if case["callback"]["raise_for"] else [])
+    else:
+        labels_cb = []
     if case.get("unpicklable"):
         labels_extra = ["unpicklable-result"]
     else:
         labels_extra = []
-    labels = list(out["events"]) + labels_extra
+    labels = list(out["events"]) + labels_extra + labels_cb
+    from vf.model.poolsim import is_transient as _tr
+    if any(_tr(case.get("fail_kind", 0) + i) for i in case["fail"]):
+        labels.append("transient-connection-drop")
     pool = min(case["par"], case["n"])
     labels.append("pool-%d" % pool)
     if out["restarts"]:
